@@ -202,6 +202,20 @@ def oracle_gen(case, ctx):
     outs = M.step_outcomes(sd, a, chain)
     if outs is not None and json.dumps(nd, sort_keys=True) not in outs:
         ctx.fail(f'{a} with {chain}: next state is not one the reference model allows', {'kind': 'model_mismatch', 'action': a})
+    # the stateful route: an environment that starts in this state and is stepped once holds a state the model allows as well (compared
+    # deeply: what a box contains is not part of the library's ==)
+    if outs is not None:
+        space_all = {'types': list(gen.GRID_TYPES), 'colors': list(COLORS)}
+        env = envs.mk_env(space_all, M.shape(sd), {'chain': chain, 'rewards': [{'name': 'living_reward', 'reward': -1.0}], 'term': {'name': 'reach_exit'}, 'obs': 'fully_transparent', 'view': [1, 1]},
+                          reset_state=sd)
+        env.set_seed(case['seed'])
+        guarded(ctx, 'reset', env.reset)
+        guarded(ctx, f'env.step {a}', env.step, objs.action(a))
+        ne = objs.canon_state(env.state)
+        if json.dumps(ne, sort_keys=True) not in outs:
+            diff = [(p, M.cell(sd, p), M.cell(ne, p)) for p in M.positions(sd) if M.cell(ne, p) != M.cell(nd, p)][:4]
+            ctx.fail(f'{a} with {chain}: after env.step the environment holds a state the reference model does not allow (cells where it differs from the functional result: {diff})',
+                     {'kind': 'model_mismatch', 'action': a, 'aspect': 'stateful_route'})
     # direct statement: only the faced cell may change, only under ACTUATE (chains without teleport keep "faced" unambiguous)
     changed = []
     if 'teleport' not in chain and 'move_obstacles' not in chain:
